@@ -53,5 +53,6 @@ package hh
 // head position is at the footer (size is the length of the flushed file: blocks + 8-byte footer).
 //@ func (*queue).Empty
 //@   props C04
-//@   ensures empty_iff_no_pending: result == (l.head == nil || l.tail == nil || len(l.segments) == 0 || (l.head == l.tail && l.head.pos == l.head.size - 8))
+//@   requires head_wf: l.head != nil ==> l.head.size >= 8
+//@   ensures empty_iff_no_pending: result == (l.head == nil || l.tail == nil || len(l.segments) == 0 || (l.head == l.tail && l.head.pos == l.head.size - 8 && (l.head.buf == nil || buf_len(l.head.buf) == 0)))
 //@   modifies nothing
